@@ -33,5 +33,14 @@ for mname, m in repo.modules.items():
                 out["__attrs__"][f"{mname}.{c.name}"] = sig
 from sa import normalise  # noqa: E402
 out["__comprehensions__"] = {q: normalise.count_comprehensions(fi.node) for q, fi in repo.funcs.items() if normalise.count_comprehensions(fi.node)}
+# call forms of the reviewed tree: callee simple name -> sorted list of the positional-argument counts used (calls with * / ** skipped)
+callpos = {}
+for q, fi in repo.funcs.items():
+    for n in _ast.walk(fi.node):
+        if isinstance(n, _ast.Call) and not any(isinstance(a, _ast.Starred) for a in n.args) and not any(k.arg is None for k in n.keywords):
+            nm = n.func.id if isinstance(n.func, _ast.Name) else (n.func.attr if isinstance(n.func, _ast.Attribute) else None)
+            if nm:
+                callpos.setdefault(nm, set()).add(len(n.args))
+out["__callpos__"] = {k: sorted(v) for k, v in callpos.items()}
 json.dump(out, open(alpha.BASELINE, "w"), indent=0, sort_keys=True)
 print("functions with locals:", len(out))
